@@ -13,7 +13,7 @@ RULE = (
     "a case is an http/https URL built from (scheme spelling, optional userinfo, host from {names, upper-case, trailing dot, "
     "IDN, A-label, IPv4, [IPv6], [IPv6%25zone]}, port {absent, explicit default, odd, leading zeros}, path with dot segments / "
     "escapes / spaces / non-ASCII / backslash, query, fragment) sent with PoolManager directly, through a forwarding proxy, and "
-    "through a CONNECT tunnel, each together with an EQUIVALENT spelling (scheme/host letter case flipped, explicit default "
+    "through a CONNECT tunnel (http and https proxies), optionally reached through a redirect, optionally after the same manager (with manager-level headers or a header mapping the caller reuses) has served another origin, each together with an EQUIVALENT spelling (scheme/host letter case flipped, explicit default "
     "port added or removed). The URL string is read by the independent RFC 3986 splitter (vlib/refurl.py) and compared with "
     "what the socket layer and the servers saw: address dialled, CONNECT line, TLS server name, Host header (strict "
     "grammar), request target. Non-trivial = host is IPv6 / IDN / has a trailing dot or zone, or the URL has userinfo / a "
@@ -38,6 +38,9 @@ ROUTES = ["direct", "forward", "tunnel", "forward-tls", "tunnel-tls"]
 
 HOST_HDR_RE = re.compile(r"^(\[[0-9A-Fa-f:.]+(%(25)?[A-Za-z0-9._~-]+)?\]|[A-Za-z0-9._~!$&'()*+,;=%-]+)(:[0-9]+)?$")
 TARGET_OK = refurl.QUERY_OK
+
+
+PRIORS = (None, "mgr-headers", "shared-dict")
 
 
 def _scale(n):
@@ -139,8 +142,10 @@ def _check_target(t: str, exp, fails, sig, brief, absolute_prefix=None):
         fails.append(Failure("target", {**sig, "what": "query"}, f"request target query {q!r} does not mean {want_q!r}: {brief()}"))
 
 
-def run_one(url: str, route: str, w, net, pm, exp, fails, sig, brief, via_redirect=False):
+def run_one(url: str, route: str, w, net, pm, exp, fails, sig, brief, via_redirect=False, headers=None):
     import urllib3
+
+    hkw = {} if headers is None else {"headers": headers}
 
     n_log, n_dials = len(w.log), len(net.dials)
     err = None
@@ -148,9 +153,9 @@ def run_one(url: str, route: str, w, net, pm, exp, fails, sig, brief, via_redire
         if via_redirect:
             # the URL under test is reached through a redirect from http://start.test/ (same checks on the second request)
             w.redirect_to = url
-            r = pm.request("GET", "http://start.test/redir", retries=urllib3.Retry(total=3, redirect=2), redirect=True)
+            r = pm.request("GET", "http://start.test/redir", retries=urllib3.Retry(total=3, redirect=2), redirect=True, **hkw)
         else:
-            r = pm.request("GET", url, retries=False, redirect=False)
+            r = pm.request("GET", url, retries=False, redirect=False, **hkw)
         r.data
     except BaseException as e:  # noqa: BLE001
         if type(e).__name__ == "CaseTimeout":
@@ -238,7 +243,7 @@ def run_one(url: str, route: str, w, net, pm, exp, fails, sig, brief, via_redire
 def run_case(case) -> list[Failure]:
     import urllib3
 
-    if case.get("kind") != "url" or case.get("route") not in ROUTES or not isinstance(case.get("via_redirect", False), bool):
+    if case.get("kind") != "url" or case.get("route") not in ROUTES or not isinstance(case.get("via_redirect", False), bool) or case.get("prior") not in PRIORS:
         raise core.InvalidCase
     c = case["c"]
     if not isinstance(c, dict) or c.get("scheme") not in SCHEMES + [s.swapcase() for s in SCHEMES] or not isinstance(c.get("host"), str) or not c["host"]:
@@ -284,24 +289,34 @@ def run_case(case) -> list[Failure]:
 
     if (exp2["dial"], exp2["sni"], exp2["port"], exp2["path"], exp2["query"]) != (exp["dial"], exp["sni"], exp["port"], exp["path"], exp["query"]):
         raise core.HarnessError(f"variant is not equivalent under the reference reading: {url!r} vs {url2!r}")
+    prior = case.get("prior")
+    shared = {"X-App": "verif"} if prior == "shared-dict" else None
+    mkw = {"headers": {"X-App": "verif"}} if prior == "mgr-headers" else {}
     with fakenet.Net(w) as net:
         if route == "direct":
-            pm = urllib3.PoolManager(ssl_context=ctx)
+            pm = urllib3.PoolManager(ssl_context=ctx, **mkw)
         elif route.endswith("-tls"):
-            pm = urllib3.ProxyManager("https://sproxy.test:3129", ssl_context=ctx, proxy_ssl_context=pctx)
+            pm = urllib3.ProxyManager("https://sproxy.test:3129", ssl_context=ctx, proxy_ssl_context=pctx, **mkw)
         else:
-            pm = urllib3.ProxyManager("http://proxy.test:3128", ssl_context=ctx)
+            pm = urllib3.ProxyManager("http://proxy.test:3128", ssl_context=ctx, **mkw)
         try:
+            if prior is not None:
+                # the same manager (and the same header mapping) served a request to ANOTHER origin just before
+                sig = {**sig, "prior": prior}
+                try:
+                    pm.request("GET", "http://start.test/first", retries=False, redirect=False, **({} if shared is None else {"headers": shared})).data
+                except Exception as ex:  # noqa: BLE001
+                    raise core.HarnessError(f"the plain prior request failed: {type(ex).__name__}: {ex}")
             via = bool(case.get("via_redirect"))
             if via and not url.isascii():
                 raise core.InvalidCase  # a Location header carries ASCII only
             if via:
                 sig = {**sig, "via_redirect": True}
-            e1 = run_one(url, route, w, net, pm, exp, fails, sig, brief, via_redirect=via)
+            e1 = run_one(url, route, w, net, pm, exp, fails, sig, brief, via_redirect=via, headers=shared)
             if via:
                 return _done(fails, w, sig, brief)
             if e1 is not None and not fails:
-                e2 = run_one(url2, route, w, net, pm, exp2, fails, {**sig, "variant": True}, brief)
+                e2 = run_one(url2, route, w, net, pm, exp2, fails, {**sig, "variant": True}, brief, headers=shared)
                 if e2 is not None:
                     try:
                         same_pool = pm.connection_from_url(url) is pm.connection_from_url(url2)
@@ -374,6 +389,9 @@ def enum_cases(tier):
             yield _mk(scheme, USERINFO[k % len(USERINFO)], host, port, PATHS[k % len(PATHS)], QUERIES[k % len(QUERIES)], FRAGS[k % len(FRAGS)], route)
             if port in (None, "8080", "default") and scheme in ("http", "https") and build_url({"scheme": scheme, "host": host, "path": PATHS[k % len(PATHS)], "query": QUERIES[k % len(QUERIES)]}).isascii():
                 yield dict(_mk(scheme, None, host, port, PATHS[k % len(PATHS)], QUERIES[k % len(QUERIES)], None, route), via_redirect=True)
+            if port in (None, "8080") and scheme in ("http", "https"):
+                # the manager (with manager-level headers, or a header mapping the caller reuses) has just served another origin
+                yield dict(_mk(scheme, None, host, port, PATHS[k % len(PATHS)], QUERIES[k % len(QUERIES)], None, route), prior=("mgr-headers", "shared-dict")[k % 2], via_redirect=bool(k % 3 == 0) and build_url({"scheme": scheme, "host": host, "path": PATHS[k % len(PATHS)], "query": QUERIES[k % len(QUERIES)]}).isascii())
     for path, query, frag, ui in itertools.product(PATHS, QUERIES, FRAGS, USERINFO):
         k += 1
         if tier == "quick" and k % 3:
@@ -385,12 +403,15 @@ def enum_cases(tier):
 def _hyp():
     from hypothesis import strategies as st
 
-    def mk(scheme, ui, host, port, path, query, frag, r):
-        return _mk(scheme, ui, host, port, path, query, frag, routes_for(scheme)[r])
+    def mk(scheme, ui, host, port, path, query, frag, r, prior):
+        c = _mk(scheme, ui, host, port, path, query, frag, routes_for(scheme)[r])
+        if prior is not None:
+            c["prior"] = prior
+        return c
 
     return st.builds(mk, st.sampled_from(SCHEMES), st.sampled_from(USERINFO), st.sampled_from(HOSTS), st.sampled_from(PORTS),
                      st.one_of(st.sampled_from(PATHS), st.lists(st.sampled_from(["a", "b c", "..", ".", "", "%41", "é", "x;y", "a\\b", "~", "%zz"]), min_size=1, max_size=5).map(lambda l: "/" + "/".join(l))),
-                     st.sampled_from(QUERIES), st.sampled_from(FRAGS), st.integers(0, 2))
+                     st.sampled_from(QUERIES), st.sampled_from(FRAGS), st.integers(0, 2), st.sampled_from([None, None, "mgr-headers", "shared-dict"]))
 
 
 def shards(tier, seed):
